@@ -298,6 +298,8 @@ example : ¬ PreSafe exBoom.pre [1, 13] := by
   rw [PreSafe, this] at h
   cases h
 
+set_option linter.unusedSimpArgs false
+
 /-! ## 3. The adapters (sentence 2)
 
 "The adapters Call, Run, FillInto, FillCompute and SourceEl preserve the meaning of the wrapped method for every
@@ -363,10 +365,10 @@ theorem call_preserves (c : Caps) (name : Option String) (m : CallMode) (h : mkC
   cases name with
   | none =>
     simp only [mkCall] at h
-    split at h <;> simp_all
+    split at h <;> (subst_vars; simp_all [callBinding, sourceElBinding, runBinding, fillIntoBinding, fillComputeBinding])
   | some n =>
     simp only [mkCall] at h
-    split at h <;> simp_all
+    split at h <;> (subst_vars; simp_all [callBinding, sourceElBinding, runBinding, fillIntoBinding, fillComputeBinding])
 
 theorem sourceEl_accepts_iff (c : Caps) (name : Option String) :
     (∃ m, mkSourceEl c name = .ok m) ↔ sourceElAccepts c name = true := by
@@ -392,11 +394,11 @@ theorem sourceEl_preserves (c : Caps) (name : Option String) (m : CallMode) (h :
   | none =>
     simp only [mkSourceEl] at h
     split at h
-    · simp_all
-    · split at h <;> simp_all
+    · (subst_vars; simp_all [callBinding, sourceElBinding, runBinding, fillIntoBinding, fillComputeBinding])
+    · split at h <;> (subst_vars; simp_all [callBinding, sourceElBinding, runBinding, fillIntoBinding, fillComputeBinding])
   | some n =>
     simp only [mkSourceEl] at h
-    split at h <;> simp_all
+    split at h <;> (subst_vars; simp_all [callBinding, sourceElBinding, runBinding, fillIntoBinding, fillComputeBinding])
 
 theorem run_accepts_iff (c : Caps) (name : Option String) :
     (∃ m, mkRun c name = .ok m) ↔ runAccepts c name = true := by
@@ -425,15 +427,15 @@ theorem run_preserves (c : Caps) (name : Option String) (m : RunMode) (h : mkRun
   | none =>
     simp only [mkRun] at h
     split at h
-    · simp_all
+    · (subst_vars; simp_all [callBinding, sourceElBinding, runBinding, fillIntoBinding, fillComputeBinding])
     · split at h
-      · simp_all
-      · split at h <;> simp_all
+      · (subst_vars; simp_all [callBinding, sourceElBinding, runBinding, fillIntoBinding, fillComputeBinding])
+      · split at h <;> (subst_vars; simp_all [callBinding, sourceElBinding, runBinding, fillIntoBinding, fillComputeBinding])
   | some n =>
     simp only [mkRun] at h
     split at h
-    · simp_all
-    · split at h <;> simp_all
+    · (subst_vars; simp_all [callBinding, sourceElBinding, runBinding, fillIntoBinding, fillComputeBinding])
+    · split at h <;> (subst_vars; simp_all [callBinding, sourceElBinding, runBinding, fillIntoBinding, fillComputeBinding])
 
 theorem fillInto_accepts_iff (c : Caps) (name : Option String) :
     (∃ m, mkFillInto c name = .ok m) ↔ fillIntoAccepts c name = true := by
@@ -462,13 +464,13 @@ theorem fillInto_preserves (c : Caps) (name : Option String) (m : FillIntoMode) 
   | none =>
     simp only [mkFillInto] at h
     split at h
-    · simp_all
+    · (subst_vars; simp_all [callBinding, sourceElBinding, runBinding, fillIntoBinding, fillComputeBinding])
     · split at h
-      · simp_all
-      · split at h <;> simp_all
+      · (subst_vars; simp_all [callBinding, sourceElBinding, runBinding, fillIntoBinding, fillComputeBinding])
+      · split at h <;> (subst_vars; simp_all [callBinding, sourceElBinding, runBinding, fillIntoBinding, fillComputeBinding])
   | some n =>
     simp only [mkFillInto] at h
-    split at h <;> simp_all
+    split at h <;> (subst_vars; simp_all [callBinding, sourceElBinding, runBinding, fillIntoBinding, fillComputeBinding])
 
 theorem fillCompute_accepts_iff (c : Caps) (fill compute : String) :
     (∃ m, mkFillCompute c fill compute = .ok m) ↔ fillComputeAccepts c fill compute = true := by
@@ -488,9 +490,9 @@ theorem fillCompute_preserves (c : Caps) (fill compute : String) (m : String × 
   simp only [mkFillCompute] at h
   split at h
   · split at h
-    · simp_all
-    · split at h <;> simp_all
-  · simp_all
+    · (subst_vars; simp_all [callBinding, sourceElBinding, runBinding, fillIntoBinding, fillComputeBinding])
+    · split at h <;> (subst_vars; simp_all [callBinding, sourceElBinding, runBinding, fillIntoBinding, fillComputeBinding])
+  · (subst_vars; simp_all [callBinding, sourceElBinding, runBinding, fillIntoBinding, fillComputeBinding])
 
 /-- **Sentence 2, acceptance**: each adapter is constructed iff the documented capability is present, and every
 other combination of element and method name raises `LenaTypeError` (and nothing else) at construction -/
@@ -533,5 +535,203 @@ example : mkRun (capsOf [("fill", .method), ("compute", .method)] false) none = 
 example : mkFillCompute (capsOf [("fill", .method), ("request", .method)] false) "fill" "compute"
     = .ok ("fill", "request") := by rfl
 example : mkSourceEl (capsOf [("__iter__", .method)] false) none = .ok .iter := by rfl
+
+/-! ## 4. From Python objects to the chain: what the two constructors build
+
+The three-driver theorems are about a semantic `Chain`.  This section ties it to the constructors: given objects
+of the property's kinds, `FillComputeSeq(*args)` and `Sequence(*args)` both succeed, and they are exactly
+`fillRun`/`splitRun` resp. `seqRun` of one and the same chain. -/
+
+/-- an object of one of the property's pre-processing kinds, as the constructors see it -/
+inductive PreKind (o : Obj) : Prop where
+  /-- `Filter`, `Slice`: own `fill_into` and own `run`, which the model transcribes as the two faces of one `Pre` -/
+  | ownFillInto (hfi : o.caps.attr "fill_into" = .method) (hrun : o.caps.attr "run" = .method)
+      (hcoh : o.runDen = o.fillIntoDen.run)
+  /-- plain callables and `Variable`s: callable, not a `Split`, no `run`, no `fill_into` -/
+  | callable (hc : o.caps.callable = true) (hs : o.caps.isSplit = false)
+      (hrun : (o.caps.attr "run").callable = false) (hfi : (o.caps.attr "fill_into").callable = false)
+  /-- `RunIf`: a Run element with `_can_break_flow`, not callable, no `fill_into` -/
+  | canBreakFlow (hrun : o.caps.attr "run" = .method) (hcbf : (o.caps.attr "_can_break_flow").present = true)
+      (hfi : (o.caps.attr "fill_into").callable = false) (hc : o.caps.callable = false)
+
+/-- both constructors convert an element of the property's kinds, and to the two faces of the same `Pre` -/
+theorem preKind_converts (o : Obj) (h : PreKind o) :
+    ∃ p, o.toPre = .ok p ∧ o.toStage = .ok p.run := by
+  cases h with
+  | ownFillInto hfi hrun hcoh =>
+    refine ⟨o.fillIntoDen, ?_, ?_⟩
+    · simp [Obj.toPre, hfi, Attr.present, Attr.callable]
+    · simp [Obj.toStage, hrun, Attr.present, Attr.callable, hcoh]
+  | callable hc hs hrun hfi =>
+    refine ⟨.call o.callDen, ?_, ?_⟩
+    · simp [Obj.toPre, hfi, mkFillInto, Caps.hasMethod, hc, hs]
+    · simp [Obj.toStage, hrun, mkRun, Caps.hasMethod, hc, Pre.run]
+  | canBreakFlow hrun hcbf hfi hc =>
+    refine ⟨.runEl o.runDen, ?_, ?_⟩
+    · have h1 : ((o.caps.attr "fill_into").present && (o.caps.attr "fill_into").callable) = false := by simp [hfi]
+      have h2 : o.caps.isRunEl = true := by simp [Caps.isRunEl, hrun, Attr.present, Attr.callable]
+      simp only [Obj.toPre, h1, mkFillInto, Caps.hasMethod, hfi, hc, h2, hcbf]
+      simp
+    · simp [Obj.toStage, hrun, Attr.present, Attr.callable, Pre.run]
+
+theorem preKinds_convert : ∀ (pre : List Obj), (∀ o ∈ pre, PreKind o) →
+    ∃ ps, toPres pre = .ok ps ∧ toStages pre = .ok (ps.map Pre.run)
+  | [], _ => ⟨[], rfl, rfl⟩
+  | o :: pre, h => by
+    obtain ⟨p, hp, hs⟩ := preKind_converts o (h o (List.mem_cons_self ..))
+    obtain ⟨ps, hps, hss⟩ := preKinds_convert pre (fun o' ho' => h o' (List.mem_cons_of_mem _ ho'))
+    exact ⟨p :: ps, by simp [toPres, hp, hps], by simp [toStages, hs, hss]⟩
+
+/-- **construction of a chain `pre* acc post*`** from objects: every pre-processing object is of one of the
+property's kinds (and is not itself a fill/compute element), the accumulator has callable `fill` and `compute`
+and neither `run` nor `__call__` (a dual-interface element like `Count` is wrapped in `FillCompute`), the
+post-processing objects are convertible by `Sequence`.  Then `FillComputeSeq(*args)` succeeds with a chain `c`
+whose accumulator and post-processing stages are the given ones, and `Sequence(*args)` succeeds and is exactly
+`seqStages c` — so `three_drivers_agree` speaks about the two real constructions. -/
+theorem construct_chain (pre post : List Obj) (acc : Obj) (postStages : List (Stage Value))
+    (hpre : ∀ o ∈ pre, o.hasNoData = false ∧ o.caps.isFillComputeEl = false ∧ PreKind o)
+    (hacc : acc.hasNoData = false ∧ acc.caps.isFillComputeEl = true ∧
+      (acc.caps.attr "run").callable = false ∧ acc.caps.callable = false)
+    (hpost : (∀ o ∈ post, o.hasNoData = false) ∧ toStages post = .ok postStages) :
+    ∃ c, mkFillComputeSeq (pre ++ acc :: post) = .ok c ∧ c.acc = acc.accDen ∧ c.post = postStages ∧
+      toPres pre = .ok c.pre ∧ mkSequence (pre ++ acc :: post) = .ok (composeS (seqStages c)) := by
+  obtain ⟨hand, hafc, harun, hacall⟩ := hacc
+  obtain ⟨hpnd, hpst⟩ := hpost
+  obtain ⟨ps, hps, hss⟩ := preKinds_convert pre (fun o ho => (hpre o ho).2.2)
+  have hdata : dataSeq (pre ++ acc :: post) = pre ++ acc :: post := by
+    apply dataSeq_of_all_data
+    intro o ho
+    rcases List.mem_append.mp ho with h | h
+    · exact (hpre o h).1
+    · rcases List.mem_cons.mp h with rfl | h
+      · exact hand
+      · exact hpnd o h
+  have hsplit := splitAtFc_append pre acc post (fun o ho => (hpre o ho).2.1) hafc
+  have hfill : acc.caps.hasMethod "fill" = true := by
+    simp only [Caps.isFillComputeEl, Bool.and_eq_true] at hafc
+    exact hafc.1.2
+  have haccStage : acc.toStage = .ok (fcRun acc.accDen) := by
+    simp [Obj.toStage, harun, mkRun, Caps.hasMethod, hacall, hafc]
+  have hpostData : dataSeq post = post := dataSeq_of_all_data post hpnd
+  refine ⟨{ pre := ps, acc := acc.accDen, post := postStages }, ?_, rfl, rfl, hps, ?_⟩
+  · simp [mkFillComputeSeq, hdata, hsplit, mkFillSeq, hfill, hps, hpostData, hpst]
+  · have h2 : toStages (acc :: post) = .ok (fcRun acc.accDen :: postStages) := by
+      simp [toStages, haccStage, hpst]
+    have h3 := toStages_append pre (acc :: post) _ _ hss h2
+    simp [mkSequence, hdata, h3, seqStages]
+
+/-- the constructors raise nothing but `LenaTypeError` -/
+theorem constructors_only_lenaTypeError (args : List Obj) (e : Exc) :
+    (mkSequence args = .error e → e = .lenaTypeError) ∧
+    ((∃ c, mkFillComputeSeq args = .ok c) ∨ mkFillComputeSeq args = .error .lenaTypeError) := by
+  constructor
+  · intro h
+    simp only [mkSequence] at h
+    cases hs : toStages (dataSeq args) with
+    | error e' =>
+      rw [hs] at h
+      simp only [Except.error.injEq] at h
+      subst h
+      exact toStages_error _ _ hs
+    | ok sts => simp [hs] at h
+  · simp only [mkFillComputeSeq]
+    cases splitAtFc (dataSeq args) with
+    | none => simp
+    | some t =>
+      obtain ⟨before, fc, after⟩ := t
+      simp only [mkFillSeq]
+      by_cases hf : fc.caps.hasMethod "fill" = true
+      · simp only [hf, Bool.not_true, Bool.false_eq_true, if_false]
+        cases hp : toPres before with
+        | error e' =>
+          have := toPres_error _ _ hp
+          subst this
+          exact Or.inr rfl
+        | ok ps =>
+          simp only []
+          cases hs : toStages (dataSeq after) with
+          | error e' =>
+            have := toStages_error _ _ hs
+            subst this
+            exact Or.inr rfl
+          | ok sts => exact Or.inl ⟨_, rfl⟩
+      · simp [hf]
+
+/-- the vocabulary of the correspondence check is an instance: the objects for a callable, a `Variable`,
+a `Filter`, a non-negative `Slice`, a `RunIf` are of the property's kinds -/
+example : ∀ o, Spec.toObj (.call .inc) = .ok o → PreKind o := by
+  intro o h
+  simp only [Spec.toObj, Except.ok.injEq] at h
+  subst h
+  exact .callable rfl rfl rfl rfl
+
+example : ∀ o, Spec.toObj (.filter .even) = .ok o → PreKind o := by
+  intro o h
+  simp only [Spec.toObj, Except.ok.injEq] at h
+  subst h
+  exact .ownFillInto rfl rfl rfl
+
+example : ∀ o, Spec.toObj (.slice (some 1) (some 6) (some 2)) = .ok o → PreKind o := by
+  intro o h
+  have : Lena.C17.mkSlice (some 1) (some 6) (some 2) = .islice 1 (some 6) 2 := by decide
+  simp only [Spec.toObj, this, Except.ok.injEq] at h
+  subst h
+  exact .ownFillInto rfl rfl rfl
+
+example : ∀ o, Spec.toObj (.runIf .even [.call .inc]) = .ok o → PreKind o := by
+  intro o h
+  simp [Spec.toObj, Spec.toObjs, mkSequence, dataSeq, toStages, Obj.toStage, capsOf, mkRun,
+    Caps.hasMethod, Attr.present, Attr.callable] at h
+  subst h
+  exact .canBreakFlow rfl rfl rfl rfl
+
+/-! ## 5. A chain as one of several branches of a `Split` (sentence 1, "a branch of a Split")
+
+`splitRunTagged` marks every yielded value with the index of the branch it comes from; `project i` collects the
+values of branch `i`. -/
+
+/-- **Every branch yields, inside the `Split`, exactly what it yields when filled alone** — for any number of
+sibling branches (which may stop early by `LenaStopFill` at any time), any `bufsize`, any flow — provided no
+branch raises an exception (an exception in one branch ends the whole `Split.run` generator).  This is the
+statement the seeded change C05-A (the `stopped` flag shared between branches) breaks. -/
+theorem split_branches_independent (cs : List (Chain σ α)) (bufsize : Option Nat) (hb : bufsize ≠ some 0)
+    (xs : List α) (hok : ∀ c ∈ cs, (fillRun c xs).term = none) :
+    (splitRunTagged cs bufsize xs).term = none ∧
+    ∀ (i : Nat) (hi : i < cs.length), project i (splitRunTagged cs bufsize xs) = (fillRun cs[i] xs).vals := by
+  have hact : ∀ B ∈ initActive 0 cs, (B.rest (chunks bufsize xs)).term = none := by
+    intro B hB
+    obtain ⟨c, hc, hrest⟩ := initActive_rest (chunks bufsize xs) cs 0 B hB
+    rw [hrest, chunks_flatten bufsize hb xs]
+    have := hok c hc
+    rw [fillRun_eq_finish] at this
+    exact this
+  refine ⟨(splitLoop_filter 0 _ _ hact).1, ?_⟩
+  intro i hi
+  have h := (splitLoop_filter i _ _ hact).2
+  have hf := initActive_filter cs 0 i hi
+  simp only [Nat.zero_add] at hf
+  simp only [splitRunTagged]
+  rw [← h, hf, splitLoop_single, project_tag_same, Active.rest, chunks_flatten bufsize hb xs, fillRun_eq_finish]
+  rfl
+
+/-- … and therefore what the linear `Sequence` of that branch yields, under the hypotheses of `seq_eq_fill` -/
+theorem split_branch_eq_seq (cs : List (Chain σ α)) (bufsize : Option Nat) (hb : bufsize ≠ some 0)
+    (xs : List α) (hok : ∀ c ∈ cs, (fillRun c xs).term = none)
+    (i : Nat) (hi : i < cs.length) (hwf : PreWF cs[i].pre) (hacc : AccNoStop cs[i].acc)
+    (hsafe : PreSafe cs[i].pre xs) :
+    project i (splitRunTagged cs bufsize xs) = (seqRun cs[i] xs).vals := by
+  rw [(split_branches_independent cs bufsize hb xs hok).2 i hi, seq_eq_fill cs[i] xs hwf hacc hsafe]
+
+/-- the seeded demonstration: `Split([(Slice(2), Sum()), (double, Sum())], bufsize=2)` on `1..7` -/
+def exSibling : List (Chain Int Int) :=
+  [{ pre := [.slice 0 (some 2) 1], acc := exSum, post := [] },
+   { pre := [.call (fun v => .ok (2 * v))], acc := exSum, post := [] }]
+
+example : splitRunTagged exSibling (some 2) [1, 2, 3, 4, 5, 6, 7] = ⟨[(0, 3), (1, 56)], none⟩ := by rfl
+example : ∀ c ∈ exSibling, (fillRun c [1, 2, 3, 4, 5, 6, 7]).term = none := by
+  intro c hc
+  simp only [exSibling, List.mem_cons, List.not_mem_nil, or_false] at hc
+  rcases hc with rfl | rfl <;> rfl
+example : project 1 (splitRunTagged exSibling (some 2) [1, 2, 3, 4, 5, 6, 7]) = [56] := by rfl
 
 end Lena.C05
